@@ -1,5 +1,21 @@
-OUTSIDE = "(draft)"
-ASSUMPTIONS = []
+OUTSIDE = ("the dns://host:port?tcpport=N URI text form used when UDP and TCP port differ (ares_uri.c is not in the formula: servers here "
+           "have udp_port == tcp_port); several servers in one CSV text and ares_get_servers_csv's list loop (one server per text); IPv6 "
+           "address -> text -> address for arbitrary group values (only concrete IPv6 addresses in c16_servertext_*, IPv4 is value-generic in "
+           "c16_ntop_pton_v4); save -> init of an IPv6-only explicit server list (the legacy options struct carries IPv4 only: the bit is "
+           "dropped, asserted as such; ares_dup re-applies servers as text); option values above INT_MAX (the options struct is int: "
+           "assumed away as unreachable through the option API, reachable only through resolv.conf numbers, see C15 c15_opt_sign); "
+           "ares_reinit's thread handling (C11); real ares_init_options inside ares_dup (stubbed recorder)")
+ASSUMPTIONS = ["c16_userwins: ares_servers_update is a recorder; channel optmask never has the legacy ARES_OPT_TIMEOUT bit",
+               "c16_saveinit: channel A satisfies the reachable-state invariant written in harness/C16/saveinit.c (a set option bit implies its "
+               "validated value, ARES_OPT_QUERY_CACHE always set, never EVENT_THREAD together with SOCK_STATE_CB); slist_ref.c replaces the "
+               "skip list; ares_qcache_flush no-op; ares_threadsafety() true",
+               "c16_servertext: round trip proved in two halves meeting at the text model ADDR:PORT[%IFACE] (render: real ares_get_server_addr "
+               "== model for all 2^16 ports; parse: real ares_sconfig_append_fromstr(model) reproduces the server, address converter replaced "
+               "by a recorder that accepts exactly the address text; real inet_ntop -> real inet_pton identity is c16_ntop_pton_v4); "
+               "array_ref.c replaces ares_array; aif_nametoindex returns scope 7",
+               "libc_extra.c: snprintf is a harness model restricted to %u %d %x %s %% (CBMC has none); strtoul/memchr as in C15",
+               "c16_dup: ares_save_options / ares_init_options / ares_destroy_options / ares_get_servers_csv / ares_set_servers_ports_csv / "
+               "ares_destroy / channel lock are recorders returning arbitrary status"]
 
 LIB = ["src/lib/ares_library_init.c", "src/lib/str/ares_str.c"]
 SUP = ["vp_rt.c", "valloc.c", "memloops.c"]
@@ -43,6 +59,18 @@ def ntop_pton_jobs(tier):
                   real=["src/lib/inet_ntop.c", "src/lib/inet_net_pton.c", "src/lib/str/ares_str.c"],
                   support=["vp_rt.c", "memloops.c", "libc_extra.c"], unwind=18, unwindset=us(u),
                   bound="all 2^32 IPv4 addresses: real ares_inet_ntop -> real ares_inet_pton"))
+    if tier != "quick":
+        # IPv6: zero-run layout concrete per job (bit i of SHAPE set = 16-bit group i is zero), group values arbitrary
+        for nm, shape in (("ll", 0x7E), ("global", 0x7C)):
+            u6 = dict(u)
+            u6.update({"ares_inet_pton6.0": 42, "ares_inet_pton6.1": 17, "getbits.0": 4, "ares_inet_net_pton_ipv4.0": 17,
+                       "ares_inet_net_pton_ipv4.1": 5, "ares_inet_net_pton_ipv4.2": 6, "inet_ntop6.0": 17, "inet_ntop6.1": 9,
+                       "inet_ntop6.2": 9, "harness.0": 9, "harness.1": 48, "harness.2": 17, "strchr.0": 18, "vp_bytes.0": 17})
+            J.append(dict(name="c16_ntop_pton_v6_%s" % nm, harness="ntop_pton.c", defines=["-DAF=AF_INET6", "-DSHAPE=%d" % shape],
+                          real=["src/lib/inet_ntop.c", "src/lib/inet_net_pton.c", "src/lib/str/ares_str.c"],
+                          support=["vp_rt.c", "memloops.c", "libc_extra.c"], unwind=48, unwindset=us(u6),
+                          bound="IPv6 addresses whose zero groups are exactly mask 0x%02x (group values arbitrary): real ares_inet_ntop -> "
+                                "real ares_inet_pton" % shape))
     return J
 
 
@@ -52,29 +80,46 @@ def q(s):
 
 def servertext_jobs(tier):
     J = []
-    shapes = [("v4_short", "AF_INET", "1,2,3,4", ""), ("v4_long", "AF_INET", "192,168,100,254", ""),
-              ("v4_zero", "AF_INET", "0,0,0,0", "")]
+    shapes = [("v4_short", "AF_INET", "1,2,3,4", "1.2.3.4", ""), ("v4_long", "AF_INET", "192,168,100,254", "192.168.100.254", ""),
+              ("v4_zero", "AF_INET", "0,0,0,0", "0.0.0.0", ""),
+              ("v6_ll_iface", "AF_INET6", "0xfe,0x80,0,0,0,0,0,0,0,0,0,0,0,0,0,1", "fe80::1", "eth0")]
     if tier != "quick":
-        shapes += [("v4_mixed", "AF_INET", "10,200,3,44", ""),
-                   ("v6_global", "AF_INET6", "0x20,0x01,0x0d,0xb8,0,0,0,0,0,0,0,0,0,0,0,1", ""),
-                   ("v6_ll_iface", "AF_INET6", "0xfe,0x80,0,0,0,0,0,0,0,0,0,0,0,0,0,1", "eth0"),
-                   ("v6_ll_iface15", "AF_INET6", "0xfe,0x80,0,0,0,0,0,0,0,0,0,0,0,0,0x12,0x34", "abcdefghijklmno")]
-    for nm, fam, addr, iface in shapes:
-        n = 48 if fam == "AF_INET6" else 24
-        u = {"ares_buf_split.2": 2, "ares_buf_split.0": 2, "ares_buf_split.1": 2, "ares_sconfig_append_fromstr.0": 2,
-             "ares_array_destroy.0": 2, "ares_array_insertdata_last.0": 9, "ares_array_insert_last.1": 9,
-             "ares_llist_clear.0": 3, "ares_buf_consume_charset.0": 71, "ares_buf_append_num_dec.0": 6,
-             "ares_count_digits.0": 7, "ares_pow.0": 5, "ares_buf_ensure_space.0": 3, "strtol.0": 8, "harness.0": 17,
-             "vp_put_num.0": 12, "vp_put_num.1": 12, "snprintf.0": 14, "snprintf.1": 17, "vp_realloc.0": 70}
-        J.append(dict(name="c16_servertext_%s" % nm, harness="servertext.c",
-                      defines=["-DFAMILY=" + fam, "-DADDR=" + addr, "-DIFACE=" + q(iface)],
-                      real=LIB + ["src/lib/str/ares_buf.c", "src/lib/inet_ntop.c", "src/lib/inet_net_pton.c", "src/lib/ares_hosts_file.c",
-                                  "src/lib/dsa/ares_llist.c", "src/lib/util/ares_math.c"],
-                      support=SUP + ["libc_extra.c", "array_ref.c"], unwind=n + 2, unwindset=us(u), leak=True,
-                      instrument=[["--restrict-function-pointer", "ares_llist_node_destroy.function_pointer_call.1/ares_free"]],
-                      bound="server %s %s%s with ARBITRARY port (udp == tcp, all 2^16): real ares_get_server_addr -> real "
-                            "ares_sconfig_append_fromstr(strict)" % (fam, addr, (" iface " + iface) if iface else "")))
+        shapes += [("v4_mixed", "AF_INET", "10,200,3,44", "10.200.3.44", ""),
+                   ("v6_global", "AF_INET6", "0x20,0x01,0x0d,0xb8,0,0,0,0,0,0,0,0,0,0,0,1", "2001:db8::1", ""),
+                   ("v6_ll_iface15", "AF_INET6", "0xfe,0x80,0,0,0,0,0,0,0,0,0,0,0,0,0x12,0x34", "fe80::1234", "abcdefghijklmno")]
+    for si, (nm, fam, addr, atext, iface) in enumerate(shapes):
+        n = len(atext) + 2 + 6 + (len(iface) + 1 if iface else 0)
+        for mode in (0, 1):
+            ds = (0,) if mode == 0 else ((1, 2, 3, 4, 5) if (si == 0 or tier != "quick") else (5 if si % 2 else 2,))
+            for d in ds:
+                u = {"ares_buf_split.2": 2, "ares_buf_split.0": 2, "ares_buf_split.1": 2, "ares_sconfig_append_fromstr.0": 2,
+                     "ares_array_destroy.0": 2, "ares_array_insertdata_last.0": 9, "ares_array_insert_last.1": 9,
+                     "ares_llist_clear.0": 3, "ares_buf_consume_charset.0": 71, "ares_buf_append_num_dec.0": 6,
+                     "ares_count_digits.0": 7, "ares_pow.0": 5, "ares_buf_ensure_space.0": 3, "strtol.0": 8,
+                     "vp_put_num.0": 12, "vp_put_num.1": 12, "snprintf.0": 14, "snprintf.1": 17, "vp_realloc.0": 70,
+                     "ares_inet_pton6.1": 17, "memcpy.0": max(n + 2, 22), "ares_subnet_match.0": 18, "strchr.0": 18,
+                     "ares_inet_pton.0": 48, "ares_inet_pton.1": 17}
+                J.append(dict(name="c16_servertext_%s_%s" % (nm, "render" if mode == 0 else "parse_d%d" % d), harness="servertext.c",
+                              defines=["-DMODE=%d" % mode, "-DD=%d" % d, "-DFAMILY=" + fam, "-DADDR=" + addr, "-DADDRTEXT=" + q(atext),
+                                       "-DIFACE=" + q(iface)],
+                              real=LIB + ["src/lib/str/ares_buf.c", "src/lib/inet_ntop.c", "src/lib/ares_hosts_file.c",
+                                          "src/lib/dsa/ares_llist.c", "src/lib/util/ares_math.c"] +
+                                   (["src/lib/inet_net_pton.c"] if mode == 0 else []),
+                              support=SUP + ["libc_extra.c", "array_ref.c"], unwind=n + 2, unwindset=us(u), leak=True,
+                              instrument=[["--restrict-function-pointer", "ares_llist_node_destroy.function_pointer_call.1/ares_free"]],
+                              bound=("server %s%s, ARBITRARY port (udp == tcp): " % (atext, (" %" + iface) if iface else "")) +
+                                    ("real ares_get_server_addr == text model ADDR:PORT[%IFACE], all 2^16 ports" if mode == 0 else
+                                     "real ares_sconfig_append_fromstr(strict) on the text model with a %d-digit port reproduces the server" % d)))
     return J
+
+
+def dup_jobs(tier):
+    return [dict(name="c16_dup", harness="dup.c", real=LIB + ["src/lib/ares_init.c"], support=SUP, unwind=40,
+                 unwindset=us({"vp_bytes.0": 200, "memcpy.0": 200, "memcmp.0": 200}), leak=True,
+                 witnesses=["end", "dup ok", "dup failed", "late failure", "servers re-applied"],
+                 bound="real ares_dup on a source channel with arbitrary non-option settings (callbacks set or not, arbitrary socket "
+                       "function table bytes, local device name <= 31 arbitrary bytes, local IPv4/IPv6); save/init/csv stubs return "
+                       "arbitrary success/failure and an arbitrary option mask")]
 
 
 def jobs(tier, seed):
@@ -83,4 +128,9 @@ def jobs(tier, seed):
     J += saveinit_jobs(tier)
     J += ntop_pton_jobs(tier)
     J += servertext_jobs(tier)
+    J += dup_jobs(tier)
+    if tier == "quick":
+        for job in J:   # measured unloaded: every quick job <= 60 s; the machine is shared, leave head room
+            job.setdefault("timeout", 480)
+            job["mem_gb"] = min(job.get("mem_gb", 6), 6)   # shared machine: no quick job may need more than 6 GB
     return J
